@@ -61,7 +61,7 @@ def steps_of(hist, name):
                 out.append(st)
             elif m["k"] == "poll_add":
                 out.append({"k": "req", "id": m["id"], "assoc": addr(m["a"]), "kind": "poll_add", "pid": m["pid"],
-                            "period": m["period"], "classes": [False, True, True, True]})
+                            "period": m["period"], "classes": [False] + [bool(((m["pid"] % 7) + 1) >> i & 1) for i in range(3)]})
             elif m["k"] == "poll_demand":
                 out.append({"k": "req", "id": m["id"], "assoc": addr(m["a"]), "kind": "poll_demand", "pid": m["pid"]})
             elif m["k"] == "remove":
